@@ -506,4 +506,257 @@ Section Conc.
     - rewrite <- (qvis_proj _ _ _ _ H).
       eapply atomic_lin; [|exact Ha]. apply qproj_run_stamped. exact Hst.
   Qed.
+
+  (* ---------- exactly one change event per accepted write, for every schedule ---------- *)
+  Definition sub_eqb (a b : subscriber) : bool := Nat.eqb (fst a) (fst b) && (snd a =? snd b).
+  Lemma sub_eqb_eq : forall a b, sub_eqb a b = true <-> a = b.
+  Proof.
+    intros [a1 a2] [b1 b2]. unfold sub_eqb. simpl. rewrite andb_true_iff, Nat.eqb_eq, N.eqb_eq.
+    split; [intros [-> ->]; reflexivity|intros H; inversion H; auto].
+  Qed.
+  (* the payloads of the events addressed to one subscriber, in emission order *)
+  Definition ev_for (sub : subscriber) (ev : list pevent) : list bytes :=
+    map snd (filter (fun e => sub_eqb (fst e) sub) ev).
+  Definition count_sub (sub : subscriber) (l : list subscriber) : nat :=
+    List.length (filter (fun x => sub_eqb x sub) l).
+
+  Lemma ev_for_app : forall sub a b, ev_for sub (a ++ b) = ev_for sub a ++ ev_for sub b.
+  Proof. intros. unfold ev_for. now rewrite filter_app, map_app. Qed.
+
+  Lemma ev_for_notify : forall sub subs v, ev_for sub (notify subs v) = repeat (cv_data v) (count_sub sub subs).
+  Proof.
+    intros sub subs v. unfold ev_for, notify, count_sub. induction subs as [|x r IH]; simpl; [reflexivity|].
+    destruct (sub_eqb x sub); simpl; now rewrite IH.
+  Qed.
+
+  (* what a thread that has notified but not yet returned has put on the wire *)
+  Definition wdata (th : thr) : list bytes :=
+    match th_phase th with
+    | PhDone RDone => match check c valid (th_op th) with Some v => [cv_data v] | None => [] end
+    | _ => []
+    end.
+  Definition W (m : thrmap) : list bytes := flat_map (fun p => wdata (snd p)) m.
+  Definition keys_nodup (m : thrmap) : Prop := NoDup (map fst m).
+
+  Lemma qdel_absent : forall t m, qget t m = None -> qdel t m = m.
+  Proof.
+    intros t m. induction m as [|[k v] m IH]; simpl; intros H; [reflexivity|].
+    destruct (k =? t) eqn:E; [discriminate|]. simpl. now rewrite IH.
+  Qed.
+  Lemma qdel_keys : forall t m k, In k (map fst (qdel t m)) -> In k (map fst m) /\ k <> t.
+  Proof.
+    intros t m k. induction m as [|[k0 v] m IH]; simpl; intros H; [destruct H|].
+    destruct (k0 =? t) eqn:E; simpl in H.
+    - destruct (IH H); auto.
+    - destruct H as [<-|H]; [split; auto; now apply N.eqb_neq|]. destruct (IH H); auto.
+  Qed.
+  Lemma qdel_nodup : forall t m, keys_nodup m -> keys_nodup (qdel t m).
+  Proof.
+    intros t m. unfold keys_nodup. induction m as [|[k v] m IH]; simpl; intros H; [constructor|].
+    inversion H as [|? ? Hn Hd]; subst. destruct (k =? t); simpl; auto.
+    constructor; auto. intro Hin. apply Hn. now destruct (qdel_keys _ _ _ Hin).
+  Qed.
+  Lemma qset_nodup : forall t v m, keys_nodup m -> keys_nodup (qset t v m).
+  Proof.
+    intros t v m H. unfold keys_nodup, qset. simpl. constructor; [|now apply qdel_nodup].
+    intro Hin. destruct (qdel_keys _ _ _ Hin). congruence.
+  Qed.
+  Lemma W_split : forall t th m, keys_nodup m -> qget t m = Some th ->
+    Permutation (W m) (wdata th ++ W (qdel t m)).
+  Proof.
+    intros t th m. unfold keys_nodup, W. induction m as [|[k v] m IH]; simpl; intros Hn Hg; [discriminate|].
+    inversion Hn as [|? ? Hnk Hd]; subst. destruct (k =? t) eqn:E.
+    - apply N.eqb_eq in E. subst k. inversion Hg; subst. simpl.
+      assert (Hab : qget t m = None).
+      { clear - Hnk. induction m as [|[k v] m IH]; simpl; [reflexivity|].
+        destruct (k =? t) eqn:E; [apply N.eqb_eq in E; subst; exfalso; apply Hnk; simpl; auto|].
+        apply IH. intro H. apply Hnk. simpl. auto. }
+      fold (qdel t m). rewrite (qdel_absent _ _ Hab). apply Permutation_refl.
+    - simpl. specialize (IH Hd Hg).
+      eapply perm_trans; [apply Permutation_app_head; exact IH|].
+      rewrite !app_assoc. apply Permutation_app_tail. apply Permutation_app_comm.
+  Qed.
+  Lemma W_set : forall t th m, W (qset t th m) = wdata th ++ W (qdel t m).
+  Proof. reflexivity. Qed.
+
+  Lemma qstep_threads_ok : forall st e st' ev, threads_ok (snd st) ->
+    qstep c valid st e = Some (st', ev) -> threads_ok (snd st').
+  Proof.
+    intros [s m] [u l] [s' m'] ev Hok H. cbn [snd] in *. unfold qstep in H.
+    destruct l as [t o|t|t|t|t r].
+    - destruct (qget t m); [discriminate|]. inversion H; subst. apply ok_set; auto. exact I.
+    - destruct (qget t m) as [th|] eqn:Eg; [|discriminate].
+      destruct (th_phase th) eqn:Ep; try discriminate.
+      destruct (th_op th) as [nm|nm v0|x|cn mid] eqn:Eo.
+      + inversion H; subst. apply ok_set; auto. exact I.
+      + destruct (check c valid (PSet nm v0)) eqn:Ec; inversion H; subst; apply ok_set; auto; try exact I.
+        unfold thr_ok, with_phase; simpl. now rewrite Eo.
+      + destruct (check c valid (PUpdate x)) eqn:Ec; inversion H; subst; apply ok_set; auto; try exact I.
+        unfold thr_ok, with_phase; simpl. now rewrite Eo.
+      + inversion H; subst. apply ok_set; auto. exact I.
+    - destruct (qget t m) as [th|] eqn:Eg; [|discriminate].
+      destruct (th_phase th) eqn:Ep; try discriminate. inversion H; subst.
+      apply ok_set; auto. pose proof (Hok t th Eg) as Hth. unfold thr_ok in *. rewrite Ep in Hth. exact Hth.
+    - destruct (qget t m) as [th|] eqn:Eg; [|discriminate].
+      destruct (th_phase th) eqn:Ep; try discriminate. inversion H; subst. apply ok_set; auto. exact I.
+    - destruct (qget t m) as [th|] eqn:Eg; [|discriminate].
+      destruct (th_phase th) eqn:Ep; try discriminate. inversion H; subst. apply ok_del; auto.
+  Qed.
+
+  Lemma qstep_nodup : forall st e st' ev, keys_nodup (snd st) ->
+    qstep c valid st e = Some (st', ev) -> keys_nodup (snd st').
+  Proof.
+    intros [s m] [u l] [s' m'] ev Hn H. cbn [snd] in *. unfold qstep in H.
+    destruct l as [t o|t|t|t|t r]; (destruct (qget t m) as [th|] eqn:Eg; try discriminate).
+    - inversion H; subst. now apply qset_nodup.
+    - destruct (th_phase th); try discriminate.
+      destruct (th_op th) as [nm|nm v0|x|cn mid].
+      + inversion H; subst. now apply qset_nodup.
+      + destruct (check c valid (PSet nm v0)); inversion H; subst; now apply qset_nodup.
+      + destruct (check c valid (PUpdate x)); inversion H; subst; now apply qset_nodup.
+      + inversion H; subst. now apply qset_nodup.
+    - destruct (th_phase th); try discriminate. inversion H; subst. now apply qset_nodup.
+    - destruct (th_phase th); try discriminate. inversion H; subst. now apply qset_nodup.
+    - destruct (th_phase th); try discriminate. inversion H; subst. now apply qdel_nodup.
+  Qed.
+
+  (* nobody subscribes [sub] a second time *)
+  Definition is_sub_of (sub : subscriber) (o : pop) : bool :=
+    match o with PSubscribe cn mid => sub_eqb (cn, mid) sub | _ => false end.
+  Definition nosub (sub : subscriber) (m : thrmap) : Prop :=
+    forall t th, qget t m = Some th -> is_sub_of sub (th_op th) = false.
+  Fixpoint nosub_tr (sub : subscriber) (tr : list (N * qlabel)) : Prop :=
+    match tr with
+    | [] => True
+    | (_, QInv _ o) :: r => is_sub_of sub o = false /\ nosub_tr sub r
+    | _ :: r => nosub_tr sub r
+    end.
+
+  (* the data of the accepted writes that have returned, in the order of their returns *)
+  Definition qacc (m : thrmap) (e : N * qlabel) : list bytes :=
+    match snd e with
+    | QRet t _ => match qget t m with Some th => wdata th | None => [] end
+    | _ => []
+    end.
+  Fixpoint qaccepted (st : pstate * thrmap) (tr : list (N * qlabel)) : list bytes :=
+    match tr with
+    | [] => []
+    | e :: r =>
+        match qstep c valid st e with
+        | Some (st1, _) => qacc (snd st) e ++ qaccepted st1 r
+        | None => []
+        end
+    end.
+
+  Lemma count_sub_app : forall sub a b, count_sub sub (a ++ b) = (count_sub sub a + count_sub sub b)%nat.
+  Proof. intros. unfold count_sub. now rewrite filter_app, app_length. Qed.
+
+  Lemma qstep_events : forall s m e s' m' ev sub, keys_nodup m -> threads_ok m -> nosub sub m ->
+    nosub_tr sub [e] -> count_sub sub (p_subs s) = 1%nat ->
+    qstep c valid (s, m) e = Some ((s', m'), ev) ->
+    Permutation (ev_for sub ev ++ W m) (qacc m e ++ W m') /\
+    nosub sub m' /\ count_sub sub (p_subs s') = 1%nat.
+  Proof.
+    intros s m [u l] s' m' ev sub Hn Hok Hno Htr Hc H. unfold qstep in H. unfold qacc; cbn [snd].
+    assert (Hset : forall t th th', qget t m = Some th -> th_op th' = th_op th -> nosub sub (qset t th' m)).
+    { intros t th th' Hg Ho t' x Hx. destruct (N.eq_dec t' t) as [->|Hne].
+      - rewrite qget_qset_same in Hx. inversion Hx; subst. rewrite Ho. eauto.
+      - rewrite qget_qset_other in Hx by auto. eauto. }
+    destruct l as [t o|t|t|t|t r].
+    - destruct (qget t m) eqn:Eg; [discriminate|]. inversion H; subst; clear H.
+      split; [|split; auto].
+      + rewrite W_set, (qdel_absent _ _ Eg). apply Permutation_refl.
+      + intros t' x Hx. destruct (N.eq_dec t' t) as [->|Hne].
+        * rewrite qget_qset_same in Hx. inversion Hx; subst. simpl. simpl in Htr. tauto.
+        * rewrite qget_qset_other in Hx by auto. eauto.
+    - destruct (qget t m) as [th|] eqn:Eg; [|discriminate].
+      destruct (th_phase th) eqn:Ep; try discriminate.
+      assert (Hw0 : wdata th = []) by (unfold wdata; now rewrite Ep).
+      pose proof (W_split t th m Hn Eg) as Hsp. rewrite Hw0 in Hsp. simpl in Hsp.
+      destruct (th_op th) as [nm|nm v0|x|cn mid] eqn:Eo.
+      + inversion H; subst; clear H. split; [|split; auto].
+        * rewrite W_set. unfold wdata at 1; simpl. destruct (read s' nm); simpl; auto.
+          rewrite Eo. simpl. exact Hsp.
+        * eapply Hset; eauto.
+      + destruct (check c valid (PSet nm v0)) eqn:Ec; inversion H; subst; clear H; (split; [|split; auto]);
+          try (eapply Hset; eauto); rewrite W_set; unfold wdata at 1; simpl; exact Hsp.
+      + destruct (check c valid (PUpdate x)) eqn:Ec; inversion H; subst; clear H; (split; [|split; auto]);
+          try (eapply Hset; eauto); rewrite W_set; unfold wdata at 1; simpl; exact Hsp.
+      + inversion H; subst; clear H. split; [|split].
+        * rewrite W_set. unfold wdata at 1; simpl. rewrite Eo. simpl. exact Hsp.
+        * eapply Hset; eauto.
+        * simpl. rewrite count_sub_app, Hc. unfold count_sub. simpl.
+          pose proof (Hno t th Eg) as Hx. rewrite Eo in Hx. simpl in Hx. rewrite Hx. reflexivity.
+    - destruct (qget t m) as [th|] eqn:Eg; [|discriminate].
+      destruct (th_phase th) eqn:Ep; try discriminate. inversion H; subst; clear H.
+      assert (Hw0 : wdata th = []) by (unfold wdata; now rewrite Ep).
+      pose proof (W_split t th m Hn Eg) as Hsp. rewrite Hw0 in Hsp. simpl in Hsp.
+      split; [|split].
+      + rewrite W_set. unfold wdata at 1; simpl. exact Hsp.
+      + eapply Hset; eauto.
+      + simpl. exact Hc.
+    - (* notify *)
+      destruct (qget t m) as [th|] eqn:Eg; [|discriminate].
+      destruct (th_phase th) eqn:Ep; try discriminate. inversion H; subst; clear H.
+      assert (Hw0 : wdata th = []) by (unfold wdata; now rewrite Ep).
+      pose proof (W_split t th m Hn Eg) as Hsp. rewrite Hw0 in Hsp. simpl in Hsp.
+      pose proof (Hok t th Eg) as Hth. unfold thr_ok in Hth. rewrite Ep in Hth.
+      split; [|split; auto].
+      + rewrite ev_for_notify, Hc, W_set. unfold wdata at 1; simpl. rewrite Hth. simpl.
+        apply perm_skip. exact Hsp.
+      + eapply Hset; eauto.
+    - (* return *)
+      destruct (qget t m) as [th|] eqn:Eg; [|discriminate].
+      destruct (th_phase th) eqn:Ep; try discriminate. inversion H; subst; clear H.
+      split; [|split; auto].
+      + simpl. apply W_split; auto.
+      + intros t' x Hx. destruct (N.eq_dec t' t) as [->|Hne].
+        * now rewrite qget_qdel_same in Hx.
+        * rewrite qget_qdel_other in Hx by auto. eauto.
+  Qed.
+
+  Theorem events_match_accepted : forall tr s m st' ev sub, keys_nodup m -> threads_ok m -> nosub sub m ->
+    nosub_tr sub tr -> count_sub sub (p_subs s) = 1%nat ->
+    qrun c valid (s, m) tr = Some (st', ev) ->
+    Permutation (ev_for sub ev ++ W m) (qaccepted (s, m) tr ++ W (snd st')).
+  Proof.
+    induction tr as [|e r IH]; intros s m st' ev sub Hn Hok Hno Htr Hc H.
+    - simpl in H. inversion H; subst. simpl. apply Permutation_refl.
+    - rewrite qrun_cons in H. destruct (qret_ok (snd (s, m)) (snd e)); [|discriminate].
+      destruct (qstep c valid (s, m) e) as [[[s1 m1] ev1]|] eqn:E; [|discriminate].
+      destruct (qrun c valid (s1, m1) r) as [[st2 ev2]|] eqn:E2; [|discriminate].
+      inversion H; subst; clear H.
+      assert (Htr1 : nosub_tr sub [e] /\ nosub_tr sub r).
+      { destruct e as [u [t o|t|t|t|t x]]; simpl in *; tauto. }
+      destruct Htr1 as [Htr1 Htr2].
+      destruct (qstep_events _ _ _ _ _ _ sub Hn Hok Hno Htr1 Hc E) as (P1 & Hno1 & Hc1).
+      pose proof (qstep_nodup (s, m) e (s1, m1) ev1 Hn E) as Hn1.
+      pose proof (qstep_threads_ok (s, m) e (s1, m1) ev1 Hok E) as Hok1.
+      simpl in Hn1, Hok1.
+      specialize (IH _ _ _ _ sub Hn1 Hok1 Hno1 Htr2 Hc1 E2).
+      cbn [qaccepted]. rewrite E. cbn [snd]. rewrite ev_for_app.
+      assert (Hmid : forall (a b d : list bytes), Permutation (a ++ b ++ d) (b ++ a ++ d)).
+      { intros a b d. rewrite !app_assoc. apply Permutation_app_tail. apply Permutation_app_comm. }
+      transitivity (ev_for sub ev2 ++ (ev_for sub ev1 ++ W m)).
+      { rewrite <- app_assoc. apply Hmid. }
+      transitivity (ev_for sub ev2 ++ (qacc m e ++ W m1)).
+      { apply Permutation_app_head. exact P1. }
+      transitivity (qacc m e ++ (ev_for sub ev2 ++ W m1)).
+      { apply Hmid. }
+      rewrite <- app_assoc. apply Permutation_app_head. exact IH.
+  Qed.
+
+  (* from a quiet state to a quiet state: a subscriber registered once before the run receives
+     exactly the data of the accepted writes — one event each, none for a rejected write *)
+  Corollary events_exactly_accepted : forall tr s s' ev sub, nosub_tr sub tr ->
+    count_sub sub (p_subs s) = 1%nat -> qrun c valid (s, []) tr = Some ((s', []), ev) ->
+    Permutation (ev_for sub ev) (qaccepted (s, []) tr).
+  Proof.
+    intros tr s s' ev sub Htr Hc H.
+    pose proof (events_match_accepted tr s [] (s', []) ev sub) as P.
+    simpl in P. rewrite !app_nil_r in P. apply P; auto.
+    - constructor.
+    - intros t th Hg. discriminate.
+    - intros t th Hg. discriminate.
+  Qed.
 End Conc.
